@@ -219,6 +219,10 @@ where
         .handshake_timeout
         .unwrap_or(Duration::from_secs(15));
 
+      let hs_deadline = self
+        .handshake_deadline
+        .unwrap_or_else(|| TokioInstant::now() + hs_timeout);
+
       'handshake: loop {
         if self.zmtp_engine.phase == ZmtpPhase::Data
           || self.zmtp_engine.phase == ZmtpPhase::Closed
@@ -227,8 +231,10 @@ where
           break 'handshake;
         }
 
-        let read_result = tokio::time::timeout(
-          hs_timeout,
+        // The handshake interval bounds the whole handshake, not each read: a peer
+        // that drips bytes must not be able to hold the connection open forever.
+        let read_result = tokio::time::timeout_at(
+          hs_deadline,
           hs_read_half.read_buf(&mut self.handshake_read_buf),
         )
         .await;
